@@ -3,6 +3,7 @@
 // vector read from stdin, and prints every accessor of the result (C02, C09, C14).
 //   stdin : <factory key> i0 i1 ...        stdout: F <factory key> args=<names> :: <accessor=value ...>
 #include "fsweep_calls.h"
+#include <map>
 
 #define DECL(K) bool dispatch_part_##K(Pools&, const std::string&, const std::vector<long>&);
 DECL(0) DECL(1) DECL(2) DECL(3) DECL(4) DECL(5) DECL(6) DECL(7) DECL(8) DECL(9) DECL(10) DECL(11)
@@ -16,9 +17,182 @@ static bool dispatch(Pools& w, const std::string& key, const std::vector<long>& 
       or dispatch_part_8(w, key, ix) or dispatch_part_9(w, key, ix) or dispatch_part_10(w, key, ix) or dispatch_part_11(w, key, ix);
 }
 
-int main()
+// ---------------------------------------------------------------------------------------------
+// history mode (C05): `fsweep_driver --history`.  stdin, one operation per line:
+//    <factory key> i0 i1 ...          call a factory (dispatcher above); the result is remembered
+//    C enum|mapping|class|block|xlist|namespace|module     create a container; remembered as container
+//    M <container#>                   add one member to that container (enumerator, parameter, base + field,
+//                                     handler, expression, variable, module unit); the member is remembered
+//    W <n>                            build a product from a temporary Warehouse of n types, destroy the Warehouse
+//    CHECK all | CHECK <k> <seed>     re-observe all / k pseudo-randomly chosen remembered nodes
+// stdout: CHANGED / MOVED lines for every discrepancy, DUP lines for equal addresses, then one summary line.
+// ---------------------------------------------------------------------------------------------
+struct Container {
+   std::string kind;
+   impl::Enum* en = nullptr; impl::Mapping* map = nullptr; impl::Class* cls = nullptr; impl::Block* blk = nullptr;
+   impl::Expr_list* xl = nullptr; impl::Namespace* ns = nullptr; impl::Module* mod = nullptr;
+   std::size_t added = 0;
+};
+
+static std::map<std::string, std::string> kv(const std::string& d)
+{
+   std::map<std::string, std::string> m;
+   std::stringstream ss(d); std::string t;
+   while (ss >> t) { auto e = t.find('='); if (e != std::string::npos) m[t.substr(0, e)] = t.substr(e + 1); }
+   return m;
+}
+
+// a container may gain members at its end: list-valued observations may grow by a suffix, counts may grow
+static bool grown_only(const std::string& before, const std::string& after)
+{
+   auto a = kv(before), b = kv(after);
+   for (auto& [k, v] : a) {
+      auto it = b.find(k);
+      if (it == b.end()) return false;
+      const std::string& w = it->second;
+      if (v == w) continue;
+      if (k == "size" or k == "try_block" or k.size() > 6 and k.substr(k.size() - 6) == ".probe") continue;
+      auto list_prefix = [](std::string x, std::string y) {
+         auto lb = x.find('['); if (lb == std::string::npos or y.compare(0, lb + 1, x, 0, lb + 1) != 0) return false;
+         if (x.back() != ']' or y.back() != ']') return false;
+         x.pop_back();
+         return y.compare(0, x.size(), x) == 0;
+      };
+      if (list_prefix(v, w)) continue;
+      return false;
+   }
+   return true;
+}
+
+static std::size_t reobserve(std::size_t i, std::size_t step, std::size_t& bad)
+{
+   auto& m = remembered()[i];
+   const void* now = m.where();
+   if (now != m.addr) { ++bad; std::printf("MOVED step=%zu node=%zu made-by=%s(%s)\n", step, i, m.key.c_str(), m.args.c_str()); }
+   std::string d = m.redump();
+   bool same = (d == m.first) or (m.container and grown_only(m.first, d));
+   if (not same) {
+      ++bad;
+      std::printf("CHANGED step=%zu node=%zu made-by=%s(%s) before=[%s] after=[%s]\n", step, i, m.key.c_str(), m.args.c_str(), m.first.c_str(), d.c_str());
+      m.first = d;       // report each change once
+   }
+   return 1;
+}
+
+static int history(Pools& w)
+{
+   history_mode() = true;
+   std::vector<Container> cs;
+   std::vector<std::unique_ptr<impl::Module>> modules;
+   std::string line;
+   std::size_t step = 0, reobs = 0, bad = 0, members = 0, checks = 0;
+   auto note = [&](auto& obj, const std::string& key, const std::string& args, bool container = false) {
+      self_ptr() = ident(obj); auto d = guarded([&] { return dump(as_iface(obj)); }); self_ptr() = nullptr;
+      remember_obj(key, args, obj, d, container);
+   };
+   while (std::getline(std::cin, line)) {
+      if (line.empty() or line[0] == '#') continue;
+      ++step;
+      std::stringstream ss(line);
+      std::string key; ss >> key;
+      try {
+         if (key == "CHECK") {
+            std::string a; ss >> a; ++checks;
+            auto n = remembered().size();
+            if (a == "all") { for (std::size_t i = 0; i < n; ++i) reobs += reobserve(i, step, bad); }
+            else {
+               std::size_t k = std::stoul(a); unsigned long long seed = 1; ss >> seed;
+               for (std::size_t j = 0; j < k and n > 0; ++j) {
+                  seed = seed * 6364136223846793005ULL + 1442695040888963407ULL;
+                  reobs += reobserve(std::size_t(seed >> 33) % n, step, bad);
+               }
+            }
+         }
+         else if (key == "C") {
+            std::string kind; ss >> kind;
+            Container c; c.kind = kind;
+            std::string id = std::to_string(cs.size());
+            if (kind == "enum") { c.en = w.lex.make_enum(*w.greg, ipr::Enum::Kind::Scoped); note(*c.en, "C-enum", id, true); }
+            else if (kind == "mapping") { c.map = w.lex.make_mapping(*w.greg, Mapping_level{ 1 }); note(*c.map, "C-mapping", id, true); note(c.map->parameters(), "C-mapping.parameters", id, true); }
+            else if (kind == "class") { c.cls = w.lex.make_class(*w.greg); note(*c.cls, "C-class", id, true); }
+            else if (kind == "block") { c.blk = w.lex.make_block(*w.greg); note(*c.blk, "C-block", id, true); }
+            else if (kind == "xlist") { c.xl = w.lex.make_expr_list(); note(*c.xl, "C-xlist", id, true); }
+            else if (kind == "namespace") { c.ns = w.lex.make_namespace(*w.greg); note(*c.ns, "C-namespace", id, true); }
+            else if (kind == "module") { modules.push_back(std::make_unique<impl::Module>(w.lex)); c.mod = modules.back().get(); }
+            else throw std::runtime_error("bad container kind");
+            cs.push_back(c);
+         }
+         else if (key == "M") {
+            std::size_t ci = 0; ss >> ci;
+            auto& c = cs.at(ci % cs.size());
+            std::string id = std::to_string(ci % cs.size()) + "." + std::to_string(c.added);
+            auto& name = *w.ids[c.added % 12]; auto& ty = *w.types[(c.added * 5) % 12];
+            if (c.en) note(*c.en->add_member(name), "M-enumerator", id);
+            else if (c.map) note(*c.map->param(name, ty), "M-parameter", id);
+            else if (c.cls) {
+               if (c.added % 2 == 0) note(*c.cls->declare_base(ty), "M-base", id);
+               else note(*c.cls->body.declare_field(name, ty), "M-field", id, true);   // its decl-set may gain redeclarations at its end
+            }
+            else if (c.blk) {
+               if (c.added % 3 == 0) note(*c.blk->new_handler(name, ty), "M-handler", id);
+               else { c.blk->add_stmt(*w.exprs[c.added % 12]); }
+            }
+            else if (c.xl) c.xl->push_back(w.exprs[c.added % 12]);
+            else if (c.ns) note(*c.ns->body.declare_var(name, ty), "M-var", id, true);
+            else if (c.mod) { auto* u = c.mod->make_unit(); note(u->global_namespace(), "M-unit.global_namespace", id, true); }
+            ++c.added; ++members;
+         }
+         else if (key == "W") {
+            std::size_t n = 1; ss >> n;
+            const ipr::Product* p = nullptr;
+            {
+               impl::Warehouse<ipr::Type> h;
+               for (std::size_t j = 0; j < n; ++j) h.push_back(*w.types[(j * 7 + n) % 12]);
+               p = &w.lex.get_product(h);
+            }                                                    // the Warehouse is gone; the product must not depend on it
+            note(*p, "W-product", std::to_string(n));
+         }
+         else {
+            std::vector<long> ix; long v;
+            while (ss >> v) ix.push_back(v);
+            if (not dispatch(w, key, ix)) std::printf("UNKNOWN %s\n", key.c_str());
+         }
+      }
+      catch (const std::exception& e) { std::printf("HARNESS-ERROR step=%zu %s: %s\n", step, line.c_str(), e.what()); }
+   }
+   // equal addresses among remembered nodes
+   std::map<const void*, std::size_t> first_at;
+   std::size_t dups = 0;
+   for (std::size_t i = 0; i < remembered().size(); ++i) {
+      auto& m = remembered()[i];
+      auto [it, fresh] = first_at.emplace(m.addr, i);
+      if (not fresh) {
+         auto& o = remembered()[it->second];
+         ++dups;
+         if (dups <= 4000) std::printf("DUP %s|%s|%s|%s\n", o.key.c_str(), o.args.c_str(), m.key.c_str(), m.args.c_str());
+      }
+   }
+   for (std::size_t i = 0; i < cs.size(); ++i) {
+      auto& c = cs[i];
+      std::size_t seen = 0;
+      if (c.en) seen = c.en->members().size();
+      else if (c.map) seen = c.map->parameters().size();
+      else if (c.cls) seen = c.cls->bases().size() + c.cls->members().size();
+      else if (c.blk) seen = c.blk->handlers().size() + c.blk->body().size();
+      else if (c.xl) seen = c.xl->size();
+      else if (c.ns) seen = c.ns->members().size();
+      else if (c.mod) seen = c.mod->implementation_units().size();
+      std::printf("CONT %zu %s added=%zu holds=%zu\n", i, c.kind.c_str(), c.added, seen);
+   }
+   std::printf("SUMMARY steps=%zu nodes=%zu members=%zu checks=%zu reobservations=%zu discrepancies=%zu duplicates=%zu\n",
+               step, remembered().size(), members, checks, reobs, bad, dups);
+   return 0;
+}
+
+int main(int argc, char** argv)
 {
    Pools w;
+   if (argc > 1 and std::string(argv[1]) == "--history") return history(w);
    std::string line;
    while (std::getline(std::cin, line)) {
       if (line.empty() or line[0] == '#') continue;
